@@ -1036,3 +1036,178 @@ Proof.
   specialize (A (Payload_Content (EnvelopeContent_Payload env))).
   destruct (U _ payload_zero) as [p [x|]]; rewrite A; reflexivity.
 Qed.
+
+(* ================================================================================
+   8. GenericSigner.Sign / SignBlob: the request handed to notation-core-go
+      (clauses 6, 7, 8, 10: expiry = signing time + duration, signing agent, payload)
+   ================================================================================ *)
+
+Section Generic.
+Variable C E S : Type.       (* x509.Certificate, core's Envelope and Signer: opaque *)
+Variable now : Z.            (* time.Now() *)
+Variable KS : algorithm_KeySpec * option err.                    (* s.signer.KeySpec() *)
+Variable NewEnv : string -> E * option err.                      (* signature.NewEnvelope *)
+Variable ESign : ptr (signature_SignRequest C S) -> list Z * option err.   (* sigEnv.Sign *)
+Variable EVerify : ptr (signature_EnvelopeContent C) * option err.         (* sigEnv.Verify *)
+Variable WithCtx : ptr (signature_SignRequest C S) -> ptr (signature_SignRequest C S).
+Variable add : Z -> Z -> Z.                                      (* time.Time.Add *)
+Variable Marshal : envelope_Payload -> list Z * option err.      (* json.Marshal *)
+
+Local Arguments SignerSignOptions_SigningAgent {_}.
+Local Arguments SignerSignOptions_Timestamper {_}.
+Local Arguments SignerSignOptions_TSARootCAs {_}.
+Local Arguments SignerSignOptions_TSARevocationValidator {_}.
+Local Arguments GenericSigner_signer {_}.
+Local Arguments EnvelopeContent_SignerInfo {_}.
+Local Arguments mk_SignRequest {_ _}.
+Local Arguments SignRequest_Payload {_ _}.
+Local Arguments SignRequest_SigningTime {_ _}.
+Local Arguments SignRequest_Expiry {_ _}.
+Local Arguments SignRequest_SigningAgent {_ _}.
+Local Arguments SignRequest_SigningScheme {_ _}.
+Local Arguments SignRequest_Signer {_ _}.
+
+Let GSign := gen_signer_GenericSigner_Sign C now E NewEnv S ESign EVerify WithCtx add Marshal.
+Let GSignBlob := gen_signer_GenericSigner_SignBlob C now KS E NewEnv S ESign EVerify WithCtx add Marshal.
+
+Definition gfail (x : err) : sres_t C := ([], PNil, Some x).
+
+(* the sign request GenericSigner.Sign builds; [agent0] = the library's own signing agent *)
+Definition generic_request (agent0 : string) (s : signer_GenericSigner S) (opts : notation_go_SignerSignOptions C)
+           (payloadBytes : list Z) : signature_SignRequest C S :=
+  mk_SignRequest (mk_Payload mt_payload payloadBytes) (GenericSigner_signer s)
+    now
+    (if (SignerSignOptions_ExpiryDuration opts =? 0)%Z then time_zero
+     else add now (SignerSignOptions_ExpiryDuration opts))
+    []
+    (if String.eqb (SignerSignOptions_SigningAgent opts) "" then agent0 else SignerSignOptions_SigningAgent opts)
+    "notary.x509"
+    (SignerSignOptions_Timestamper opts) (SignerSignOptions_TSARootCAs opts)
+    (SignerSignOptions_TSARevocationValidator opts).
+
+Definition err_marshal (x : err) : err := Err "fmt" "envelope payload can't be marshalled: %w" [x].
+Definition err_ts1 : err := Err "errors" "timestamping: got Timestamper but nil TSARootCAs" [].
+Definition err_ts2 : err := Err "errors" "timestamping: got TSARootCAs but nil Timestamper" [].
+Definition err_selfverify : err := Err "fmt" "generated signature failed verification: %v" [].
+
+(* what GenericSigner.Sign does, in the order it does it *)
+Definition generic_sign_spec (agent0 : string) (s : signer_GenericSigner S) (desc : v1_Descriptor)
+           (opts : notation_go_SignerSignOptions C) : option (sres_t C) :=
+  match Marshal (mk_envelope_Payload (gen_envelope_SanitizeTargetArtifact desc)) with
+  | (_, Some x) => Some (gfail (err_marshal x))
+  | (bytes, None) =>
+      if negb (ptr_is_nil (SignerSignOptions_Timestamper opts)) && ptr_is_nil (SignerSignOptions_TSARootCAs opts)
+      then Some (gfail err_ts1)
+      else if negb (ptr_is_nil (SignerSignOptions_TSARootCAs opts)) && ptr_is_nil (SignerSignOptions_Timestamper opts)
+      then Some (gfail err_ts2)
+      else
+        match NewEnv (SignerSignOptions_SignatureMediaType opts) with
+        | (_, Some x) => Some (gfail x)
+        | (_, None) =>
+            match ESign (WithCtx (PNew (generic_request agent0 s opts bytes))) with
+            | (_, Some x) => Some (gfail x)
+            | (sig, None) =>
+                match EVerify with
+                | (_, Some _) => Some (gfail err_selfverify)
+                | (content, None) =>
+                    match ptr_val content with
+                    | None => None             (* nil content without error: the code dereferences it *)
+                    | Some c =>
+                        if String.eqb (Payload_ContentType (EnvelopeContent_Payload c)) mt_payload
+                        then Some (sig, PNew (EnvelopeContent_SignerInfo c), None)
+                        else Some (gfail err_ctype)
+                    end
+                end
+            end
+        end
+  end.
+
+(* For ALL oracles: the translated Sign is that function, for some fixed default agent.
+   Clause 10: SigningTime = time.Now(), Expiry = SigningTime.Add(ExpiryDuration) unless the
+   duration is 0 (then the zero Time = no expiry). Clause 7: the caller's agent, else the
+   library's. Clause 8: the payload is json.Marshal(Payload{SanitizeTargetArtifact(desc)}),
+   typed mt_payload; what core reports back must carry that type. *)
+Local Ltac generic_tail Et :=
+  destruct (ptr_is_nil (SignerSignOptions_Timestamper _)) eqn:Et;
+  destruct (ptr_is_nil (SignerSignOptions_TSARootCAs _)); cbn [negb andb]; try reflexivity;
+  destruct (SignerSignOptions_ExpiryDuration _ =? 0)%Z; cbn [negb ptr_val];
+  unfold set_SignRequest_Expiry; cbn [SignRequest_Timestamper SignRequest_Payload SignRequest_Signer
+    SignRequest_SigningTime SignRequest_Expiry SignRequest_ExtendedSignedAttributes SignRequest_SigningAgent
+    SignRequest_SigningScheme SignRequest_TSARootCAs SignRequest_TSARevocationValidator];
+  rewrite ?Et; cbn [negb];
+  destruct (NewEnv _) as [? [?|]]; cbn [is_none negb]; try reflexivity;
+  destruct (ESign _) as [? [?|]]; cbn [is_none negb]; try reflexivity;
+  destruct EVerify as [content [?|]]; cbn [is_none negb]; try reflexivity;
+  destruct (ptr_val content) as [c|]; try reflexivity;
+  rewrite gen_ValidatePayloadContentType_equiv; cbn [ptr_val];
+  unfold mt_payload, err_ctype;
+  destruct (String.eqb (Payload_ContentType (EnvelopeContent_Payload c)) _); reflexivity.
+
+Theorem gen_GenericSigner_Sign_spec :
+  exists agent0 : string, forall s desc opts, GSign s desc opts = generic_sign_spec agent0 s desc opts.
+Proof.
+  unfold GSign. clear GSign GSignBlob. eexists. intros s desc opts.
+  unfold gen_signer_GenericSigner_Sign, generic_sign_spec, generic_request, gfail, mt_payload.
+  cbv zeta.
+  destruct (Marshal _) as [bytes [x|]]; cbn [is_none negb olist]; [reflexivity|].
+  destruct (String.eqb (SignerSignOptions_SigningAgent opts) "") eqn:Ea; cbn [negb]; cbv iota.
+  - (* no agent named by the caller: the library's own agent is whatever closed string the code
+       puts into the request here *)
+    match goal with
+    | |- context [mk_SignRequest _ _ _ _ _ ?a _ _ _ _] =>
+        tryif is_evar a then fail else
+        match goal with
+        | |- context [mk_SignRequest _ _ _ _ _ ?b _ _ _ _] => is_evar b; unify b a
+        end
+    end.
+    generic_tail Et.
+  - generic_tail Et.
+Qed.
+
+(* the request against the model's generic_sign (payload, agent_id, expiry of core_sign's
+   arguments), when time.Time.Add adds *)
+Definition time_opt (t : Z) : option Z := if time_is_zero t then None else Some t.
+
+Theorem generic_request_model agent0 s desc opts bytes :
+  (forall t d, add t d = (t + d)%Z) ->
+  (0 <= now)%Z -> (0 <= SignerSignOptions_ExpiryDuration opts)%Z ->
+  let req := generic_request agent0 s opts bytes in
+  let dur := SignerSignOptions_ExpiryDuration opts in
+  let agent := SignerSignOptions_SigningAgent opts in
+  SignRequest_SigningTime req = now /\
+  time_opt (SignRequest_Expiry req) = (if (dur =? 0)%Z then None else Some (now + dur)%Z) /\
+  SignRequest_SigningAgent req = (if String.eqb agent "" then agent0 else agent) /\
+  Payload_ContentType (SignRequest_Payload req) = mt_payload /\
+  Payload_Content (SignRequest_Payload req) = bytes /\
+  payload_descr (mk_envelope_Payload (gen_envelope_SanitizeTargetArtifact desc)) = sanitize (descr_of desc).
+Proof.
+  intros Hadd Hn Hd. cbv zeta. unfold generic_request. cbn.
+  repeat split.
+  destruct (Z.eqb_spec (SignerSignOptions_ExpiryDuration opts) 0) as [Hz|Hz]; [reflexivity|].
+  rewrite Hadd. unfold time_opt, time_is_zero, time_zero.
+  destruct (Z.eqb_spec (now + SignerSignOptions_ExpiryDuration opts) (-62135596800000000000)); [lia|reflexivity].
+Qed.
+
+(* GenericSigner.SignBlob: the key spec of the signer's own key decides the digest algorithm
+   the descriptor generator is asked for (clause 9, local signers), then Sign *)
+Theorem gen_GenericSigner_SignBlob_spec s genDesc opts :
+  GSignBlob s genDesc opts
+  = match KS with
+    | (_, Some x) => Some (gfail x)
+    | (ks, None) =>
+        match C07_Model.signer_algorithms (alg_hash (sig_alg (ks_abs ks))) with
+        | None => Some (gfail err_unknown_hash)
+        | Some an =>
+            match genDesc an with
+            | (_, Some x) => Some (gfail x)
+            | (desc, None) => GSign s desc opts
+            end
+        end
+    end.
+Proof.
+  unfold GSignBlob, gen_signer_GenericSigner_SignBlob, gfail. destruct KS as [ks [x|]]; cbn [is_none negb]; [reflexivity|].
+  rewrite gen_getDescriptor_equiv.
+  destruct (C07_Model.signer_algorithms _) as [an|]; cbn [is_none negb]; [|reflexivity].
+  destruct (genDesc an) as [desc [x|]]; reflexivity.
+Qed.
+End Generic.
